@@ -447,6 +447,43 @@ fn run_unicode(rep: &Report, root: &Path, stage_desc: &mut Vec<Value>) -> u64 {
     c
 }
 
+/// the mapping is name-based: it must not depend on whether a `uses` / `ignores` path (still) exists on
+/// disk - deletions are changes too. Same enumeration as the first stage with uses and ignores
+/// entries, on a directory tree in which only the target directories exist.
+fn run_missing_on_disk(rep: &Report, root: &Path, stage_desc: &mut Vec<Value>) -> u64 {
+    let bare = root.join("bare");
+    make_universe(&bare, &D, &[]);
+    let chs = change_universe();
+    let entries: Vec<&str> = D.iter().chain(P_EXTRA.iter()).copied().collect();
+    let count = std::sync::atomic::AtomicU64::new(0);
+    let tsets = subsets(&D, 1, 2);
+    tsets.par_iter().for_each(|tset| {
+        let nt = tset.len();
+        let us = entry_sets(nt, &entries, 1);
+        let is = entry_sets(nt, &entries, 1);
+        for u in &us {
+            for i in &is {
+                let mut base: Vec<Tgt> = tset.iter().map(|p| Tgt::new(p)).collect();
+                for (ti, e) in u {
+                    base[*ti].uses.push(e.clone());
+                }
+                for (ti, e) in i {
+                    base[*ti].ignores.push(e.clone());
+                }
+                let cfg = Cfg { targets: base };
+                count.fetch_add(1, std::sync::atomic::Ordering::Relaxed);
+                rep.eval(chs.len() as u64 + 4);
+                for (sig, detail, extra) in check_cfg(&cfg, &bare, &chs, false) {
+                    rep.violation(&format!("{}:path-missing-on-disk", sig), 7_000_000 + (nt as u64) * 100_000, json!({"config": cfg.to_value(), "input": extra, "universe": "bare"}), detail);
+                }
+            }
+        }
+    });
+    let c = count.load(std::sync::atomic::Ordering::Relaxed);
+    stage_desc.push(json!({"family": "uses/ignores paths that do not exist on disk (only target directories exist)", "configurations": c, "complete": true}));
+    c
+}
+
 pub fn run(tier: &str, root: &Path) -> Value {
     setup(root);
     let chs = change_universe();
@@ -551,6 +588,7 @@ pub fn run(tier: &str, root: &Path) -> Value {
         stage_desc.push(json!({"family": "one entry shared by two or all targets (as uses or as ignores) x at most one entry of the other kind", "configurations": c, "complete": true}));
     }
     seen_stage_cfgs += run_unicode(&rep, root, &mut stage_desc);
+    seen_stage_cfgs += run_missing_on_disk(&rep, root, &mut stage_desc);
     // batching sweep on a fixed feature set of configurations
     let feature_cfgs = batching_cfgs();
     feature_cfgs.par_iter().enumerate().for_each(|(k, cfg)| {
@@ -603,9 +641,18 @@ pub fn batching_cfgs() -> Vec<Cfg> {
     out
 }
 
+fn cfg_of(case: &Value) -> Cfg {
+    Cfg::from_value(&case["config"])
+}
+
 pub fn replay(case: &Value, root: &Path) -> Vec<(String, String)> {
     setup(root);
     let cfg = Cfg::from_value(&case["config"]);
+    if case["universe"] == "bare" {
+        let bare = root.join("bare");
+        make_universe(&bare, &D, &[]);
+        return check_cfg(&cfg_of(case), &bare, &change_universe(), false).into_iter().map(|(s, d, _)| (s, d)).collect();
+    }
     let chs = if case["universe"] == "unicode" {
         make_universe(root, &["caf\u{e9}", "caf\u{e9}s", "caf\u{e9}/\u{fc}", "b", "lib\u{e9}", "lib\u{e9}s", "caf"], &[]);
         unicode_changes()
